@@ -17,7 +17,11 @@ class Contract:
                  raises=None, raises_ensures=None, modifies=None, loops=None, inline=False,
                  trusted=False, prop=None, closure=None, note="", param_names=None,
                  allow_any_raise=False, replay=None, cases=None, ghost_params=None, frame=None,
-                 decreases=None, raise_modifies=None, assumes=(), ghost_after=None, inline_callees=(), tier="quick", call_inline=False, raises_fields=None, defaults=None):
+                 decreases=None, raise_modifies=None, assumes=(), ghost_after=None, inline_callees=(), tier="quick", call_inline=False, raises_fields=None, defaults=None, returns_expr=None, call_ghost=None):
+        # ghost arguments passed at call sites inside this function: {callee key: {ghost param: expression text}}
+        self.call_ghost = {k: {g: self._p(e) for g, e in v.items()} for k, v in (call_ghost or {}).items()}
+        # the call returns (an alias of) this expression over the arguments instead of a fresh value
+        self.returns_expr = self._p(returns_expr) if returns_expr else None
         # default values (expression text) of parameters of model methods, which have no real signature
         self.defaults = {k: self._p(v) for k, v in (defaults or {}).items()}
         self.key = key
